@@ -333,7 +333,7 @@ func TestEquivalence(t *testing.T) {
 			return c.V[1].Depth >= 2 || c.V[2].Depth >= 2
 		},
 		Classes: classesOf,
-		Quick:   12000, Thorough: 150000,
+		Quick:   15000, Thorough: 50000,
 	})
 }
 
